@@ -580,8 +580,7 @@ fn gen_kern(rng: &mut Rng, hits: &mut Vec<Vec<i64>>) -> T {
             3 => cov |= 8, // override
             _ => {}
         }
-        let last = k == n - 1;
-        if last && rng.chance(1, 3) {
+        if rng.chance(1, 3) {
             // format 2: class values are byte offsets into the kerning array
             let nl = rng.range(0, 3);
             let nr = rng.range(1, 3);
